@@ -1,7 +1,7 @@
 """C01 - selections form a faithful Boolean algebra over membership masks."""
 PROPERTY = 'C01'
 LEVEL = 'proof'
-DEDUCTIVE = ['contracts.c01_subset']
+DEDUCTIVE = ['contracts.c01_subset', 'contracts.c01_frames']
 BUDGET_S = {'quick': 20.0, 'thorough': 60.0}
 MIN_OBLIGATIONS = {'quick': 150, 'thorough': 150}
 BOUNDED_FLOOR = {'quick': 1500, 'thorough': 5000}
